@@ -257,6 +257,9 @@ def retry_after_or(
             sleep_s = max(0.0, float(retry_after))
             if jitter:
                 sleep_s += random.uniform(0.0, jitter)
+                if not math.isfinite(sleep_s):
+                    # hint + jitter left float range (infinite or huge jitter_s): wait at least the hint.
+                    sleep_s = sys.float_info.max
         else:
             sleep_s = fallback_fn(ctx)
 
